@@ -43,6 +43,7 @@ inductive P (n : Nat)
   | extend (p : P n) (v : Fin n) (e : PT n)       -- BIND(e AS ?v), e a variable or a constant
   | graph (t : PT n) (p : P n)
   | values (rows : List (Row n))                  -- ToMultiSet(values(res)); `none` = UNDEF
+  | sub (pv : List (Fin n)) (p : P n)             -- ToMultiSet(Project(p, PV)): a sub-SELECT without modifiers
 
 /-- `_addVars`: the variables a part may bind -/
 def P.vars {n : Nat} : P n → List (Fin n)
@@ -55,6 +56,7 @@ def P.vars {n : Nat} : P n → List (Fin n)
   | .extend p v _ => p.vars ++ [v]
   | .graph t p => ptVars t ++ p.vars
   | .values _ => []
+  | .sub pv p => p.vars ++ pv                    -- everything below, the un-projected variables included (C04-K1)
 
 /-- `analyse`: can this part be the operand of a lazy join? (no Join below it) -/
 def P.noJoin {n : Nat} : P n → Bool
@@ -67,6 +69,7 @@ def P.noJoin {n : Nat} : P n → Bool
   | .extend p _ _ => p.noJoin
   | .graph _ p => p.noJoin
   | .values _ => true
+  | .sub _ p => p.noJoin
 
 /-- `ctx.thaw(a)` = `clone(a)`: `Bindings(d=a)`, then `bindings.update(initBindings)` — initBindings win -/
 def thaw {n : Nat} (init a : Row n) : Row n := merge init a
@@ -147,6 +150,10 @@ def evalTD {n : Nat} (ds : DSet) (init : Row n) : P n → Store → Row n → Li
   | .values rows, _, μ =>
     -- `c = ctx.push(); c[k] = v` for every non-UNDEF item (AlreadyBound → next row); `yield c.solution()`
     rows.filterMap fun r => if compat r μ then some (merge μ r) else none
+  | .sub pv p, g, μ =>
+    -- evalMultiset: `_join(evalPart(ctx.clean(), part.p), [ctx.solution()])`, part.p = Project: the sub-select runs in
+    -- a context that holds the initBindings only, its rows are projected, then joined with the current bindings
+    joinBag ((evalTD ds init p g init).map (project pv)) [μ]
 
 /-- `simplify` at translation time: the triple list of every BGP goes through `reorderTriples` -/
 def P.reorder {n : Nat} (isLit : Term → Bool) (tle : TP n → TP n → Bool) : P n → P n
@@ -159,6 +166,7 @@ def P.reorder {n : Nat} (isLit : Term → Bool) (tle : TP n → TP n → Bool) :
   | .extend p v e => .extend (p.reorder isLit tle) v e
   | .graph t p => .graph t (p.reorder isLit tle)
   | .values rows => .values rows
+  | .sub pv p => .sub pv (p.reorder isLit tle)
 
 /-- `Graph.query(SELECT pv { P }, initBindings=init)`: `QueryContext(graph, initBindings=init)` (bindings = init),
     `evalPart` of the group, `evalProject` -/
